@@ -1186,6 +1186,8 @@ spectral_radius(const mpi::distributed_matrix<Backend> &A, int power_iters = 0)
 #pragma omp critical
             radius = std::max(radius, emax);
         }
+
+        radius = comm.reduce(MPI_MAX, radius);
     } else {
         backend::numa_vector<rhs_type>   b0(n, false), b1(n, false);
         backend::numa_vector<ptrdiff_t>  rem_col(A_rem.nnz, false);
